@@ -216,6 +216,9 @@ const (
 // textCost estimates the bytes copied by the library's run-by-run string concatenation when the text of every
 // cell of the table is read once (public fields only): per cell, total text length x number of runs.
 func textCost(t *document.Table) int {
+	if t == nil {
+		return 0
+	}
 	cost := 0
 	for r := range t.Rows {
 		for c := range t.Rows[r].Cells {
@@ -236,7 +239,7 @@ const maxTextCost = 150 << 20
 
 // hugeSpan: cell (0,0) carries a gridSpan above 2000 (public fields only).
 func hugeSpan(t *document.Table) bool {
-	if len(t.Rows) == 0 || len(t.Rows[0].Cells) == 0 {
+	if t == nil || len(t.Rows) == 0 || len(t.Rows[0].Cells) == 0 {
 		return false
 	}
 	p := t.Rows[0].Cells[0].Properties
@@ -388,16 +391,23 @@ func (j *judge) followUp(doc *document.Document) {
 		res.Count("tables_not_edited", len(tables)-len(sel))
 	}
 	for ti, t := range sel {
+		// every element GetTables() hands out is a table the caller may use; a nil one fails in the first accessor
 		if t == nil {
-			continue
+			res.Label("opened-nil-table")
 		}
 		who := func(c string) string { return fmt.Sprintf("%s on opened table #%d", c, ti) }
 		st := tblState(t)
 		if strings.Contains(st, "ragged=true") {
 			res.Label("opened-ragged-table")
 		}
-		if t.Grid == nil {
+		if t != nil && t.Grid == nil {
 			res.Label("opened-table-without-grid")
+		}
+		if t != nil && len(t.Rows) == 0 {
+			res.Label("opened-rowless-table")
+		}
+		if t != nil && len(t.Rows) > 0 && len(t.Rows[0].Cells) == 0 {
+			res.Label("opened-table-empty-first-row")
 		}
 		ok := true
 		rd := func(name string, f func()) {
